@@ -96,3 +96,11 @@ Definition c18_destroy_inline_current : bool := true.
     it could not load to the replicator"); false = before: a restart forgot the missing
     ancestors of held entries and nothing fetched them any more.  Model/NetHoles.v [rm]. *)
 Definition c02_records_missing_current : bool := true.
+
+(** base_store.go Load / LoadFromSnapshot run under a context bound to the store's (true, fix:
+    commit d904e98); false = before: a load waiting for a block nobody provides survived Close. *)
+Definition c18_load_bound_current : bool := true.
+(** cacheleveldown Destroy removes the files of the database's own leveldb directory only (true,
+    fix: commit a59cf11); false = before: os.RemoveAll, which took the cache of
+    /orbitdb/<root>/a/b along with the one of /orbitdb/<root>/a. *)
+Definition c18_destroy_own_files_current : bool := true.
